@@ -10,7 +10,7 @@ The accepted programs of the L1 generators are additionally judged for dynamic t
 import threading
 
 from .. import classify, common as C
-from .. import corpus, gen
+from .. import corpus, gen, progpool
 
 PID = "C02"
 
@@ -58,6 +58,32 @@ def run(tier, replay=None):
         c["obs"] = o
         if o["status"] in ("ok", "fail"):
             judged.append(c)
+    # composed programs: whatever the compiler accepts among the generated control-flow programs (GenCtl pool) and the
+    # example corpus must not end in a dynamic type error either
+    import random
+    pool = list(progpool.programs(binary, work / "pool", tier, rep.seed)) + list(corpus.copy_examples(work / "examples"))
+    rnd = random.Random(rep.seed)
+    if tier == "quick" and len(pool) > 900:
+        pool = rnd.sample(pool, 900)
+
+    def run_group(srcs):
+        out = []
+        for src in srcs:
+            r = C.run_proc([binary, "run", src.name, "-q"], cwd=src.parent, timeout=10, stdin="")
+            fclass, panic = classify.classify(r)
+            err = C.strip_ansi(r["err"])
+            if r["timeout"]:
+                status = "timeout"
+            elif fclass == "compile" or (r["exit"] == 101 and "panicked at compiler" in err):
+                status = "rejected"
+            else:
+                status = "ok" if r["exit"] == 0 else "fail"
+            out.append(dict(id="composed " + str(src.relative_to(work)), lines=src.read_text(errors="replace").split("\n"), composed=True,
+                            obs=dict(status=status, fclass=fclass or "", typeof="", kind="", text="", exit=r["exit"], err=err[-400:], diag="")))
+        return out
+    composed = [c for g2 in C.pmap(run_group, corpus.by_directory(pool)) for c in g2]
+    cases += composed
+    judged += [c for c in composed if c["obs"]["status"] in ("ok", "fail")]
     f = work / "cases.ndjson"
     C.write_ndjson(f, [dict(id=c["id"], status=c["obs"]["status"], fclass=c["obs"]["fclass"], typeof=c["obs"]["typeof"], kind=c["obs"]["kind"]) for c in judged])
     r = C.tlc("CheckSound", "CheckSound", work / "judge", env=dict(CASES=str(f)), workers=8, timeout=1800)
@@ -79,8 +105,9 @@ def run(tier, replay=None):
     for c in cases:
         st[c["obs"]["status"]] = st.get(c["obs"]["status"], 0) + 1
     rep.coverage = dict(
-        evaluations=len(cases), distinct_nontrivial=len(judged), outcome=st, exhaustive=True,
-        rule="GenSound.tla: 19 binary operators x 6x6 static kind pairs, 2 unary operators x 6 kinds, about 120 built-in / index / field / method / closure / optional expressions in a typed position; non-trivial = accepted by the compiler (only those are judged)",
+        evaluations=len(cases), distinct_nontrivial=len(judged), outcome=st, exhaustive=True, composed_programs=len(composed),
+        composed_accepted=sum(1 for c in composed if c["obs"]["status"] in ("ok", "fail")),
+        rule="GenSound.tla: 19 binary operators x 6x6 static kind pairs, 2 unary operators x 6 kinds, about 120 built-in / index / field / method / closure / optional expressions in a typed position; plus composed programs (GenCtl control-flow pool and the example corpus) judged for dynamic type errors only; non-trivial = accepted by the compiler (only those are judged)",
         states=r.distinct + g.distinct, transitions=r.generated + g.generated,
         samples=[dict(id=c["id"], typeof=c["obs"]["typeof"], kind=c["obs"]["kind"], value=c["obs"]["text"]) for c in judged[:: max(1, len(judged) // 4)][:4]],
     )
